@@ -436,6 +436,14 @@ def ref_validate(spec, table, rows=None, restrict_all=False):
     # dataframe-level built-in checks apply to every cell of the (filtered) frame
     for ci, cs in enumerate(spec.get("checks", [])):
         live = [c for c in tcols if c["name"] not in filtered]
+        if cs["kind"] == "col_ge":  # user-written row-wise check on one (null-free, numeric) column
+            tgt = [c for c in live if c["name"] == cs["args"]["column"]]
+            if len(tgt) != 1 or tgt[0]["phys"] not in _NUMERIC_PHYS or any(c is None for c in tgt[0]["cells"]):
+                raise Undefined("col_ge outside its domain")
+            bad = [i for i in rows_data if tgt[0]["cells"][i] < cs["args"]["min_value"]]
+            if bad:
+                ref.errors.append(RefError("DATAFRAME_CHECK", DATA, None, ("frame", ci, cs["kind"]), sorted(bad), None))
+            continue
         if cs["kind"] == "unique_values_eq" or cs["kind"].startswith("str_"):
             raise Undefined("frame-level non-elementwise/str check")
         if len({c["name"] for c in live}) != len(live):
